@@ -189,7 +189,7 @@ func (f *fixture) mk(s scen) interfaces.Transaction {
 
 // sequential reference verdicts: against the state before and after the block
 func (f *fixture) refVerdicts(s scen) (before, after string) {
-	if s.Kind == "checkpoint" {
+	if s.Kind == "checkpoint" || s.Kind == "producers" {
 		return "equal", "equal"
 	}
 	f.freshState(s.Kind == "voting")
@@ -243,9 +243,73 @@ func (f *fixture) checkpointScenario(s scen) *vsched.Scenario {
 	}
 }
 
+// producerBlock: updates the registered producer's info (UpdateProducer) and, in separate
+// history entries, attaches DPoS v2 votes to it — two changes to the same producer record.
+func (f *fixture) producerBlock() *types.Block {
+	upd := &payload.ProducerInfo{OwnerKey: f.ownerK, NodePublicKey: f.ownerK, NickName: "p-renamed", Url: "u2", Location: 2, NetAddress: "b", StakeUntil: f.height + 100000}
+	updTx := mkTx(ctypes.UpdateProducer, payload.ProducerInfoDposV2Version, upd, nil, nil)
+	voteTx := mkTx(ctypes.Voting, payload.VoteVersion, &payload.Voting{Contents: []payload.VotesContent{{VoteType: outputpayload.DposV2,
+		VotesInfo: []payload.VotesWithLockTime{{Candidate: f.ownerK, Votes: addU, LockTime: f.height + 10000}}}}}, nil, f.progs())
+	return &types.Block{Header: ctypes.Header{Height: f.height, Timestamp: 1700000000}, Transactions: []interfaces.Transaction{updTx, voteTx}}
+}
+
+func producersView(ps []state.Producer) string {
+	var out []string
+	for i := range ps {
+		p := &ps[i]
+		info := p.Info()
+		out = append(out, fmt.Sprintf("%x:%s/%d/%s/votes=%d/detailed=%d", info.OwnerKey[:4], info.NickName, info.Location, info.Url, p.DposV2Votes(), len(p.GetAllDetailedDPoSV2Votes())))
+	}
+	sort.Strings(out)
+	return strings.Join(out, ";")
+}
+
+// producersScenario: an RPC-style list request (State.GetAllProducers, which hands out copies)
+// concurrent with a block that changes a producer in two steps. The copy must show the record
+// as it was before the block or as it is after it.
+func (f *fixture) producersScenario(s scen) *vsched.Scenario {
+	f.freshState(true)
+	st0 := f.chain.GetState()
+	before := producersView(st0.GetAllProducers())
+	st0.ProcessBlock(f.producerBlock(), nil, 0)
+	after := producersView(st0.GetAllProducers())
+	if before == after {
+		evid.Fatalf("harness: the producer block does not change the producer list view")
+	}
+	return &vsched.Scenario{
+		Name:     s.Name,
+		Bound:    s.Bound,
+		MaxSteps: 20000,
+		Setup: func() ([]string, []func(), func(*vsched.Exec) (string, *vsched.Fail)) {
+			st := f.freshState(true)
+			blk := f.producerBlock()
+			var got string
+			names := []string{"block", "list"}
+			bodies := []func(){
+				func() { st.ProcessBlock(blk, nil, 0) },
+				func() { got = producersView(st.GetAllProducers()) },
+			}
+			check := func(x *vsched.Exec) (string, *vsched.Fail) {
+				switch got {
+				case before:
+					return "before", nil
+				case after:
+					return "after", nil
+				}
+				return "torn", &vsched.Fail{Signature: "C40|torn-query|GetAllProducers",
+					What: "a producer list request concurrent with block processing returned a record that matches neither the state before the block nor the state after it: " + got}
+			}
+			return names, bodies, check
+		},
+	}
+}
+
 func (f *fixture) scenario(s scen, before, after string) *vsched.Scenario {
 	if s.Kind == "checkpoint" {
 		return f.checkpointScenario(s)
+	}
+	if s.Kind == "producers" {
+		return f.producersScenario(s)
 	}
 	return &vsched.Scenario{
 		Name:     s.Name,
@@ -307,6 +371,7 @@ func scenarios(r *evid.Run) []scen {
 	out = append(out, scen{Name: "returnvotes-9-b2", Kind: "returnvotes", Value: 9, Bound: 2})
 	out = append(out, scen{Name: "voting-9-b2", Kind: "voting", Value: 9, Bound: 2})
 	out = append(out, scen{Name: "checkpoint-save-b1", Kind: "checkpoint", Bound: 1})
+	out = append(out, scen{Name: "producers-list-b2", Kind: "producers", Bound: 2})
 	qb := 1
 	if r.Thorough() {
 		qb = 2
@@ -328,6 +393,16 @@ func freeRun(f *fixture, n int) {
 			go func() { defer wg.Done(); st.ProcessBlock(blk, nil, 0) }()
 			go func() { defer wg.Done(); verdict(tx) }()
 			go func() { defer wg.Done(); _ = len(st.GetProducers()); _ = st.GetActivityV2Producers() }()
+			wg.Wait()
+		}
+		// producer list request while a block changes the producer
+		{
+			st := f.freshState(true)
+			blk := f.producerBlock()
+			var wg sync.WaitGroup
+			wg.Add(2)
+			go func() { defer wg.Done(); st.ProcessBlock(blk, nil, 0) }()
+			go func() { defer wg.Done(); producersView(st.GetAllProducers()) }()
 			wg.Wait()
 		}
 		// checkpoint snapshot written while the next block is processed
